@@ -21,7 +21,7 @@ LP, PAY_ESDT, NFTC, OTHER, SFTPAY = 1, 2, 3, 4, 6
 
 
 class History:
-    def __init__(self, rng, variant, hid, profile='dev', size='small', tags=None):
+    def __init__(self, rng, variant, hid, profile='dev', size='small', tags=None, twin=False):
         self.rng = rng
         self.v = variant
         self.hid = hid
@@ -37,10 +37,14 @@ class History:
         self.kinds = {}
         self.deployed = False
         self.tags = tags or []
+        self.twin = twin
+        self.twin_lines = []
+        self.fixed_rnd = None
 
     # ---------------------------------------------------------------- plumbing
-    def raw(self, line, reply=False):
+    def raw(self, line, reply=False, twin_line=None):
         self.lines.append(line)
+        self.twin_lines.append(twin_line if twin_line is not None else line)
         return self.m.send(line, reply)
 
     def pseudo_seeds(self):
@@ -52,15 +56,22 @@ class History:
         """Append a call; returns the model's record for it."""
         toks = ep if isinstance(ep, list) else ep.split()
         rnd = self.rng.getrandbits(40)
+        if self.fixed_rnd is not None:
+            rnd = self.fixed_rnd
         payl = []
         for (t, n, a) in pay:
             payl += [str(t), str(n), str(a)]
         line = 'C %d %d %d %d %s %d %d %s %s' % (caller, self.round, self.epoch, rnd, budget, snap, len(pay),
                                                   ' '.join(payl), ' '.join(str(x) for x in toks))
         line = ' '.join(line.split())
+        tline = None
+        if self.twin and toks[0] in ('filter', 'select', 'extra'):
+            tl = line.split()
+            tl[5] = '-'
+            tline = ' '.join(tl)
         # generation-time seeds for the model only (not part of the history: the real seeds come from the VM)
         self.m.send('S 2 ' + ' '.join(self.pseudo_seeds()), False)
-        out = self.raw(line, True)
+        out = self.raw(line, True, tline)
         rec = parse_block(out)
         self.ncalls += 1
         if rec['views']:
@@ -497,6 +508,17 @@ class History:
         r = self.rng
         n = 0
         stuck = 0
+        if self.twin:
+            self.fixed_rnd = r.getrandbits(40)
+        try:
+            return self._run_step(ep, max_calls)
+        finally:
+            self.fixed_rnd = None
+
+    def _run_step(self, ep, max_calls):
+        r = self.rng
+        n = 0
+        stuck = 0
         while n < max_calls:
             n += 1
             if ep == 'filter':
@@ -515,7 +537,7 @@ class History:
             if rec['status'] == 'ok':
                 if rec['ret'] == [0]:
                     return True
-                if r.random() < 0.1:
+                if r.random() < 0.1 and not self.twin:
                     self.probe()
             else:
                 stuck += 1
@@ -528,17 +550,17 @@ class History:
         v = self.v
         self.round = r.choice([200, 200, r.randint(200, 215)])
         order = ['filter', 'select'] + (['extra'] if v in HAS_EXTRA else [])
-        if r.random() < 0.3:
+        if r.random() < 0.3 and not self.twin:
             # out-of-order attempts
             self.call(self.some_caller(0.5), r.choice(['select', 'extra', 'claim', 'claimPayment']), budget=self.budget())
         for ep in order:
-            if r.random() < 0.15:
+            if r.random() < 0.15 and not self.twin:
                 nxt = [x for x in order if x != ep]
                 self.call(self.some_caller(0.5), r.choice(nxt + ['claim']), budget=self.budget())
             okc = self.run_step(ep)
             if not okc:
                 break
-            if r.random() < 0.25:
+            if r.random() < 0.25 and not self.twin:
                 self.call(self.some_caller(0.5), ep, budget=self.budget())  # repeat of a completed step must fail
         if v not in HAS_EXTRA and r.random() < 0.2:
             self.call(OWNER, 'extra')
@@ -639,8 +661,8 @@ class History:
         return self.call(c, 'unpause')
 
 
-def gen_lifecycle(rng, variant, hid, profile='dev', size='small'):
-    h = History(rng, variant, hid, profile, size)
+def gen_lifecycle(rng, variant, hid, profile='dev', size='small', twin=False):
+    h = History(rng, variant, hid, profile, size, twin=twin)
     if h.start():
         h.phase_add()
         h.phase_confirm()
